@@ -321,10 +321,21 @@ func childMain() {
 	initEntropy()
 	tier := tierFromArgs()
 	var secs []h.Section
+	sel := argVal("-section")
 	for _, s := range scenarios {
 		bound := 1
 		if tier == "thorough" || s.small {
 			bound = 2
+		}
+		if s.name == sel && !hasArg("-replay") {
+			// bound 2 costs ~P^2/2 executions of ~P points each: affordable up to P ~ 700 (quick) / 1500 (thorough)
+			p := s.get().points
+			if bound == 2 && ((tier == "thorough" && p > 1500) || (tier != "thorough" && p > 700)) {
+				bound = 1
+			}
+			if tier == "thorough" && p <= 150 {
+				bound = 3
+			}
 		}
 		secs = append(secs, h.Section{Name: s.name, Body: s.body, Bound: bound, Serial: true})
 	}
